@@ -316,6 +316,11 @@ def usage_cases(r, base):
     cases.append(('output-is-input',
                   dict(input_text=text, spec=rules, infile_name='in.smt2',
                        outfile_name='in.smt2')))
+    # ... or reaches it through another spelling (a symbolic link to the
+    # directory)
+    cases.append(('output-is-input-via-link',
+                  dict(input_text=text, spec=rules, infile_name='in.smt2',
+                       outfile_name='alias/in.smt2', _alias=True)))
     cases.append(('jobs-zero',
                   dict(input_text=text, spec=rules, opts=['-j', '0'])))
     return cases
@@ -329,6 +334,8 @@ def run_usage(res, base, name, kw, entry):
     isdir = kw.pop('_input_dir', False)
     nonexec = kw.pop('_nonexec', False)
     may_complete = kw.pop('_may_complete', False)
+    if kw.pop('_alias', False):
+        os.symlink(wd, os.path.join(wd, 'alias'))
     if kw.pop('_cc_nonexec', False):
         ne = os.path.join(wd, 'cc_notexec')
         with open(ne, 'w') as f:
@@ -400,6 +407,10 @@ def run_usage(res, base, name, kw, entry):
     if run.rc == 0:
         res.violation(f'exit-status:zero-without-completion:{entry}',
                       f'usage error {name}: exit status 0', witness)
+    if getattr(run, 'infile_unchanged', True) is False:
+        res.violation(f'usage:input-file-modified:{name}',
+                      f'usage error {name}: the input file was modified',
+                      witness)
     shutil.rmtree(wd, ignore_errors=True)
 
 
@@ -641,7 +652,7 @@ def run(ctx):
         'SIGINT is sent to the main pid only'
     ]
     ctx.judge_watchdog('runs')
-    if ctx.counters.get('usage_error_cases', 0) < 32:
+    if ctx.counters.get('usage_error_cases', 0) < 34:
         ctx.inconclusive_because('usage-error cases incomplete')
 
 
